@@ -294,6 +294,10 @@ class _RequestReceiver(Generic[_T_Request]):
                     except Exception as exc:
                         if self.disconnect_error_filter is not None and self.disconnect_error_filter(exc):
                             break
+                        # A broken transport may raise this error again on every call without ever suspending:
+                        # always let the other tasks run (and a cancellation be delivered) before the error is thrown
+                        # into the request handler.
+                        await self.__backend.coro_yield()
                         raise
                     if not data:
                         break
@@ -333,6 +337,10 @@ class _BufferedRequestReceiver(Generic[_T_Request]):
                     except Exception as exc:
                         if self.disconnect_error_filter is not None and self.disconnect_error_filter(exc):
                             break
+                        # A broken transport may raise this error again on every call without ever suspending:
+                        # always let the other tasks run (and a cancellation be delivered) before the error is thrown
+                        # into the request handler.
+                        await self.__backend.coro_yield()
                         raise
                     if not nbytes:
                         break
